@@ -112,16 +112,21 @@ impl Members {
     // A result of `true` means that the effective list of
     // cluster member addresses has changed
     pub fn remove_member(&mut self, actor: &Actor) -> bool {
+        // a down notification for the identity we know, or for a newer
+        // identity of the same actor (SWIM may rename a member to an identity
+        // we never saw come up and then declare that one down)
         let effectively_down = if let Some(member) = self.states.get(&actor.id()) {
-            member.ts == actor.ts()
+            member.ts.to_duration() <= actor.ts().to_duration()
         } else {
             // Shouldn't happen
             false
         };
 
-        if effectively_down {
-            self.by_addr.remove(&actor.addr());
-            self.states.remove(&actor.id());
+        if effectively_down
+            && let Some(member) = self.states.remove(&actor.id())
+            && self.by_addr.get(&member.addr) == Some(&actor.id())
+        {
+            self.by_addr.remove(&member.addr);
         }
 
         effectively_down
